@@ -300,7 +300,9 @@ def r_all(ctx, only_order=False):
     ctx.check("R4", f"{f.site()}::generator-form", shape_ok, "default_rng(SeedSequence(seed).spawn(n_chains)[chain_index]), all built inside this call",
               f"the per-chain generator is `{detail[:110]}`, not default_rng(SeedSequence(seed).spawn(n_chains)[chain_index]) constructed here "
               f"(a shared/cached SeedSequence is stateful under spawn; another form may give equal or overlapping streams)")
-    sl = {x for x in names_in(e)} - {"numpy", "np"}
+    # (names of the function's own: parameters and locals; imported names - numpy, or SeedSequence / default_rng imported directly - are not data)
+    own_names = set(f.params) | {x.id for x in ast.walk(f.node) if isinstance(x, ast.Name) and isinstance(x.ctx, ast.Store)}
+    sl = {x for x in names_in(e) if x in own_names}
     ctx.check("R4", f"{f.site()}::generator-slice", sl == {"seed", "n_chains", "chain_index"}, "backward slice of the generator is {seed, n_chains, chain_index}",
               f"the generator depends on {sorted(sl)}")
 
